@@ -28,6 +28,8 @@ CONSTANTS
     Gaps,           \* "all": every arrival schedule (for scenario generation); "overlap": only the most general one
     DropExit,       \* FALSE: the exit frame carries the standalone exit status (what C17 needs); TRUE: deviation switch
                     \* VMD_DROPS_EXIT - the daemon reports 0 for every run that completes, 1 for a failed one (finding F12b)
+    FlushOnErr,     \* TRUE: fflush() of the session's stream after vm_execute() on every path (as the code is); FALSE:
+                    \* regression "flush only when the run succeeded" - a buffered partial line of a failing run is lost
     KeepData,       \* TRUE: frames in `sent` carry their data (model checking); FALSE: only their type (trace validation
                     \* of long outputs: the content is compared when the frame is written, not kept)
     ExternalProg(_),\* observation of a module that is not one of the abstract ones (trace validation: measured by running
@@ -41,16 +43,23 @@ Clients == 1 .. N
 \* unit; no two modules share a character).  Standalone(m) is what `nano_vm m`
 \* yields; the concrete bytes of the corpus modules are measured at check time,
 \* the shape (how many units, failing or not) is what the model needs.
-ModNames == {"zero", "one", "two", "many", "fail", "code"}
+ModNames == {"zero", "one", "two", "many", "fail", "failp", "tailp", "code"}
 Standalone(m) ==
     CASE m = "zero" -> [out |-> "",    err |-> "",  exit |-> 0]
       [] m = "one"  -> [out |-> "a",   err |-> "",  exit |-> 0]
       [] m = "two"  -> [out |-> "gh",  err |-> "",  exit |-> 0]
       [] m = "many" -> [out |-> "bcd", err |-> "",  exit |-> 0]
       [] m = "fail" -> [out |-> "e",   err |-> "E", exit |-> 1]     \* run-time failure after some output
+      [] m = "failp" -> [out |-> "pq", err |-> "P", exit |-> 1]     \* last unit has no trailing newline, then a run-time failure
+      [] m = "tailp" -> [out |-> "rs", err |-> "",  exit |-> 0]     \* last unit has no trailing newline, then a normal end
       [] m = "code" -> [out |-> "f",   err |-> "",  exit |-> 3]     \* main returns non-zero (whatever standalone reports)
       [] OTHER      -> ExternalProg(m)
 NoExternal(m) == [out |-> "", err |-> "", exit |-> 0]
+
+\* The session's stream is line-buffered (setvbuf _IOLBF in socket_fopen): a unit that ends with a newline leaves the
+\* stdio buffer at once, a unit without one (a partial line) stays there until more output completes the line or until
+\* the explicit fflush() after vm_execute().  NoNl(m) = positions of the units of m that do not end with a newline.
+NoNl(m) == IF m \in {"failp", "tailp"} THEN {2} ELSE {}
 
 \* ------------------------------------------------------------------ client behaviours
 GoodKinds   == {"exec", "ping", "status"}
@@ -153,17 +162,20 @@ Others(K) == {k \in [Clients -> K \cup {"exec"}] :
                  /\ (Gaps = "all" \/ \A c \in 1 .. N - 2 : KindIndex(k[c]) <= KindIndex(k[c + 1]))}
 SmallKinds == {"hostile", "disc_mid", "trunc1", "badver", "status", "zerolen"}
 KindChoices ==
-    CASE Suite \in {"c17", "c17q", "c17l", "c17x", "crc"} -> [Clients -> {"exec"}]
+    CASE Suite \in {"c17", "c17q", "c17l", "c17x", "c17p", "crc"} -> [Clients -> {"exec"}]
       [] Suite = "c18"  -> Others(IF Gaps = "all" THEN AllKinds \ {"exec"} ELSE RepKinds \ {"exec"})
       [] Suite = "c18s" -> Others(SmallKinds)
       [] Suite = "c18l" -> Others({"hostile", "disc_mid", "trunc1", "status"})
       [] OTHER -> [Clients -> AllKinds]
 \* With a free arrival order exec clients are interchangeable: only sorted module assignments are explored.
-ModIndex(m) == CHOOSE i \in 1 .. 6 : <<"zero", "one", "two", "many", "fail", "code">>[i] = m
+ModIndex(m) == CHOOSE i \in 1 .. 8 : <<"zero", "one", "two", "many", "fail", "failp", "tailp", "code">>[i] = m
 Sorted(F) == IF Gaps = "all" THEN F ELSE {f \in F : \A c \in 1 .. N - 1 : ModIndex(f[c]) <= ModIndex(f[c + 1])}
 ModChoices(k) ==
-    IF Suite = "c17" THEN Sorted([Clients -> {"zero", "one", "many", "fail"}]) \cup {[c \in Clients |-> "code"]}
-    ELSE IF Suite = "c17q" THEN Sorted([Clients -> {"zero", "many", "fail"}]) \cup {[c \in Clients |-> "one"], [c \in Clients |-> "code"]}
+    IF Suite = "c17" THEN Sorted([Clients -> {"zero", "one", "many", "fail"}]) \cup Sorted([Clients -> {"many", "failp", "tailp"}])
+                          \cup {[c \in Clients |-> "code"]}
+    ELSE IF Suite = "c17q" THEN Sorted([Clients -> {"zero", "many", "fail"}]) \cup Sorted([Clients -> {"failp", "tailp"}])
+                          \cup {[c \in Clients |-> "one"], [c \in Clients |-> "code"]}
+    ELSE IF Suite = "c17p" THEN {[c \in Clients |-> "failp"]}
     ELSE IF Suite = "c17l" THEN Sorted([Clients -> {"one", "fail"}])
     ELSE IF Suite = "crc" THEN {[c \in Clients |-> "one"]}
     ELSE IF Suite = "c17x" THEN {[c \in Clients |-> "code"]}
@@ -310,7 +322,7 @@ S_SendErr(c, ok) == \* protocol-level error reply, then the session ends
     /\ S_Send(c, Frame("err", c, sst[c], 0, TRUE), ok) /\ S_Goto(c, "cleanup")
     /\ UNCHANGED <<rpos, loaded, pos, flushed, sopen, stat, active, crcflag, crcpc>>
 S_SendRtErr(c, ok) ==   \* "Runtime error: ..." exactly as standalone prints it
-    /\ up /\ sst[c] = "flush" /\ flushed[c] = pos[c] /\ ProgOf(c).err # ""
+    /\ up /\ sst[c] = "flush" /\ (flushed[c] = pos[c] \/ ~FlushOnErr) /\ ProgOf(c).err # ""
     /\ S_Send(c, Frame("err", c, IF KeepData THEN ProgOf(c).err ELSE "", 0, TRUE), ok) /\ S_Goto(c, "exit")
     /\ UNCHANGED <<rpos, loaded, pos, flushed, sopen, stat, active, crcflag, crcpc>>
 ExitCode(c) == IF DropExit THEN (IF ProgOf(c).err = "" THEN 0 ELSE 1) ELSE ProgOf(c).exit
@@ -362,8 +374,13 @@ CrcReadEnd(c)  == S_CrcReadEnd(c) /\ UNCHANGED <<scenvars, clientvars>>
 DeserStep(c)   == CrcModel = "atomic" /\ S_Deser(c, loaded[c] # "junk") /\ UNCHANGED <<scenvars, clientvars>>
 VerifyStep(c)  == S_Verify(c) /\ UNCHANGED <<scenvars, clientvars>>
 Crash(c)       == S_Crash(c) /\ UNCHANGED <<scenvars, clientvars>>
-ExecStep(c)    == (Buffered \/ flushed[c] = pos[c]) /\ S_ExecStep(c, 1) /\ UNCHANGED <<scenvars, clientvars>>
-Flush(c)       == sst[c] \in {"exec", "flush"} /\ MayWrite(c) /\ S_Flush(c, WriteOk(c)) /\ UNCHANGED <<scenvars, clientvars>>
+\* Buffered = FALSE is the stream as the code sets it up (line-buffered): a complete line is written before the program
+\* goes on, a partial line is not written while the program runs; Buffered = TRUE allows any frame boundaries.
+PartialPending(c) == pos[c] \in NoNl(mod[c])                     \* the unit printed last did not end with a newline
+ExecStep(c)    == (Buffered \/ flushed[c] = pos[c] \/ PartialPending(c)) /\ S_ExecStep(c, 1) /\ UNCHANGED <<scenvars, clientvars>>
+FlushNow(c)    == IF sst[c] = "flush" THEN (FlushOnErr \/ ProgOf(c).err = "")      \* the explicit fflush() after vm_execute()
+                  ELSE (Buffered \/ ~PartialPending(c))                            \* stdio writes complete lines by itself
+Flush(c)       == sst[c] \in {"exec", "flush"} /\ FlushNow(c) /\ MayWrite(c) /\ S_Flush(c, WriteOk(c)) /\ UNCHANGED <<scenvars, clientvars>>
 ExecEnd(c)     == S_ExecEnd(c) /\ UNCHANGED <<scenvars, clientvars>>
 SendErr(c)     == sst[c] \in ErrStates \cup {"flush"} /\ MayWrite(c) /\ (S_SendErr(c, WriteOk(c)) \/ S_SendRtErr(c, WriteOk(c))) /\ UNCHANGED <<scenvars, clientvars>>
 SendExit(c)    == sst[c] \in {"flush", "exit"} /\ MayWrite(c) /\ S_SendExit(c, WriteOk(c)) /\ UNCHANGED <<scenvars, clientvars>>
